@@ -347,6 +347,179 @@ func (c *vsCase) validateAll() (res string) {
 	return "false"
 }
 
+// ---------- histories on one packet object ----------
+
+// vsObj is one live packet object; apply replaces its fields by those of another case with
+// the same number of inputs and outputs (fields are replaced, never edited inside a shared slice)
+type vsObj struct {
+	ver int
+	p0  *pset.Pset
+	p2  *psetv2.Pset
+}
+
+func (c *vsCase) object() *vsObj {
+	c = c.clone() // the object owns its storage
+	if c.ver == 0 {
+		return &vsObj{ver: 0, p0: c.buildV0()}
+	}
+	return &vsObj{ver: 2, p2: c.buildV2()}
+}
+
+func (o *vsObj) apply(d *vsCase) bool {
+	if o.ver == 0 {
+		q := d.buildV0()
+		if len(q.Inputs) != len(o.p0.Inputs) || len(q.UnsignedTx.Inputs) != len(o.p0.UnsignedTx.Inputs) ||
+			len(q.UnsignedTx.Outputs) != len(o.p0.UnsignedTx.Outputs) {
+			return false
+		}
+		o.p0.UnsignedTx.Version = q.UnsignedTx.Version
+		o.p0.UnsignedTx.Locktime = q.UnsignedTx.Locktime
+		for k := range q.UnsignedTx.Inputs {
+			o.p0.UnsignedTx.Inputs[k] = q.UnsignedTx.Inputs[k]
+		}
+		for k := range q.UnsignedTx.Outputs {
+			o.p0.UnsignedTx.Outputs[k] = q.UnsignedTx.Outputs[k]
+		}
+		for k := range q.Inputs {
+			o.p0.Inputs[k] = q.Inputs[k]
+		}
+		return true
+	}
+	q := d.buildV2()
+	if len(q.Inputs) != len(o.p2.Inputs) || len(q.Outputs) != len(o.p2.Outputs) {
+		return false
+	}
+	o.p2.Global = q.Global
+	for k := range q.Inputs {
+		o.p2.Inputs[k] = q.Inputs[k]
+	}
+	for k := range q.Outputs {
+		o.p2.Outputs[k] = q.Outputs[k]
+	}
+	return true
+}
+
+func (o *vsObj) validate(idx int) (res string) {
+	defer func() {
+		if e := recover(); e != nil {
+			res = "panic"
+		}
+	}()
+	var ok bool
+	var err error
+	if o.ver == 0 {
+		ok, err = o.p0.ValidateInputSignatures(idx)
+	} else {
+		ok, err = o.p2.ValidateInputSignatures(idx)
+	}
+	if err != nil {
+		return "err"
+	}
+	if ok {
+		return "true"
+	}
+	return "false"
+}
+
+func (o *vsObj) validateAll() (res string) {
+	defer func() {
+		if e := recover(); e != nil {
+			res = "panic"
+		}
+	}()
+	var ok bool
+	var err error
+	if o.ver == 0 {
+		ok, err = o.p0.ValidateAllSignatures()
+	} else {
+		ok, err = o.p2.ValidateAllSignatures()
+	}
+	if err != nil {
+		return "err"
+	}
+	if ok {
+		return "true"
+	}
+	return "false"
+}
+
+// skipOracle advances over the oracle part of a vsig case (read by the model driver only)
+func skipOracle(t *Toks) {
+	for _, w := range []int{4, 2, 6, 3} {
+		n := t.Int()
+		for i := 0; i < n*w; i++ {
+			t.Next()
+		}
+	}
+}
+
+// family vhist: `vhist <case A> <case B>` (two vsig cases without the leading word): build the
+// packet object of A, validate, replace its fields by those of B, validate again.
+// The model is a pure function of the packet: res1 = validate(A), res/all = validate(B).
+func readVh(t *Toks) (*vsCase, *vsCase) {
+	a := readVs(t)
+	skipOracle(t)
+	b := readVs(t)
+	return a, b
+}
+
+func runVh(t *Toks) string {
+	a, b := readVh(t)
+	o := a.object()
+	r1 := o.validate(a.idx)
+	a1 := o.validateAll()
+	if !o.apply(b) {
+		return "res=shape-mismatch"
+	}
+	return "res1=" + r1 + " all1=" + a1 + " res=" + o.validate(b.idx) + " all=" + o.validateAll()
+}
+
+func genVhCases(r *Rng, n int, w *bufio.Writer) {
+	for i := 0; i < n; i++ {
+		vsKeyLog = nil
+		a, spends := genHonest(r)
+		var sbb sb
+		a.writePacket(&sbb)
+		b := parseVs(trimSp(sbb.String()))
+		kind := 10 + r.Intn(6) // covered transaction fields
+		if r.Chance(30) {
+			kind = r.Intn(42)
+		}
+		corruptKind(r, b, spends, kind)
+		same := b.ver == a.ver && b.idx == a.idx && len(b.ins) == len(a.ins) &&
+			len(b.tx.Inputs) == len(a.tx.Inputs) && len(b.tx.Outputs) == len(a.tx.Outputs)
+		if !same {
+			b = parseVs(trimSp(sbb.String()))
+			b.tx.Locktime ^= 1 << uint(r.Intn(32))
+		}
+		a.attachPrivs()
+		b.attachPrivs()
+		la, lb := a.line(), b.line()
+		fmt.Fprintln(w, "vhist "+la[len("vsig "):]+" "+lb[len("vsig "):])
+	}
+}
+
+// family vsig, generator "vshapes": deterministic misplaced-script shapes (used for the corpus)
+func genVsShapes(r *Rng, n int, w *bufio.Writer) {
+	count := 0
+	for tries := 0; tries < 4000 && count < n; tries++ {
+		vsKeyLog = nil
+		c, spends := genHonest(r)
+		if len(c.ins) != 1 || len(c.ins[0].sigs) != 1 || (c.ins[0].redeem == nil && c.ins[0].witscript == nil) {
+			continue
+		}
+		var sbb sb
+		c.writePacket(&sbb)
+		d := parseVs(trimSp(sbb.String()))
+		if corruptKind(r, d, spends, 38) != "scripts-swapped-resigned" {
+			continue
+		}
+		d.attachPrivs()
+		fmt.Fprintln(w, d.line())
+		count++
+	}
+}
+
 func runVs(t *Toks) string {
 	c := readVs(t)
 	if c.ver == 2 {
@@ -685,7 +858,11 @@ func (c *vsCase) resign(k, j int, key *vsKey, algo int, script, amount []byte, h
 }
 
 // corrupt applies one corruption to the input c.idx (or to the packet); returns its name
-func corrupt(r *Rng, c *vsCase, spends []*vsSpend) (name string) {
+func corrupt(r *Rng, c *vsCase, spends []*vsSpend) string {
+	return corruptKind(r, c, spends, r.Intn(42))
+}
+
+func corruptKind(r *Rng, c *vsCase, spends []*vsSpend, kind int) (name string) {
 	defer func() {
 		if e := recover(); e != nil {
 			name = "none"
@@ -718,7 +895,26 @@ func corrupt(r *Rng, c *vsCase, spends []*vsSpend) (name string) {
 			c.tx.Inputs[k].Hash = append([]byte{}, h...)
 		}
 	}
-	switch r.Intn(38) {
+	switch kind {
+	case 38, 39, 40, 41:
+		// the redeem / witness script sits in the other field and the signatures are made
+		// over what that placement suggests (redeem script: legacy hash, witness script: segwit hash)
+		if in.redeem == nil && in.witscript == nil {
+			return "none"
+		}
+		in.redeem, in.witscript = in.witscript, in.redeem
+		for j, sg := range in.sigs {
+			if !sg.present || len(sg.sig) == 0 || j >= len(sp.keys) {
+				continue
+			}
+			ht := sg.sig[len(sg.sig)-1]
+			if in.redeem != nil && (in.witscript == nil || r.Bool()) {
+				c.resign(k, j, sp.keys[j], 0, in.redeem, nil, ht)
+			} else {
+				c.resign(k, j, sp.keys[j], 1, in.witscript, sp.amount, ht)
+			}
+		}
+		return "scripts-swapped-resigned"
 	case 36, 37:
 		// the script pushes a truncated / x-only form of the key, never the key itself or its hash
 		nk := genKey(r)
@@ -1233,6 +1429,9 @@ func runDisasm(t *Toks) string {
 func init() {
 	gens["vsig"] = genVsCases
 	runs["vsig"] = runVs
+	gens["vhist"] = genVhCases
+	runs["vhist"] = runVh
+	gens["vshapes"] = genVsShapes
 	gens["disasm"] = genDisasmCases
 	runs["disasm"] = runDisasm
 }
